@@ -411,6 +411,11 @@ fn order_checks(
             None => continue,
         };
         // a gate created inside a block capture starts, as far as its branch is concerned, at its first poll
+        // (never polled at all — possible since F-ready: try_join! returned at the first poll of a failing sibling — it has not
+        // started as a branch event; only its creation, inside the capture, was seen)
+        if e.created_in_capture && oe.arrive_seq.is_none() && oe.pass_seq.is_none() {
+            continue;
+        }
         let start = if e.created_in_capture { oe.arrive_seq.or(oe.pass_seq).unwrap_or(oe.first_seq) } else { oe.first_seq };
         let oe = &ObsEv { first_seq: start, arrive_seq: oe.arrive_seq, pass_seq: oe.pass_seq, dg: oe.dg, ent: oe.ent };
         let first_detached_level = detached_level(&e.tag);
